@@ -815,6 +815,10 @@ class Signature:
         bound_args: BoundArgs = {}
         star_args_consumed = False
         star_kwargs_consumed = False
+        # Whether some parameter accepts arbitrary extra keyword arguments. This
+        # is distinct from star_kwargs_consumed, which is also set when a named
+        # parameter may be filled from a **kwargs argument.
+        extra_keywords_accepted = False
         param_spec_consumed = False
 
         for param in self.parameters.values():
@@ -1021,6 +1025,7 @@ class Signature:
                 bound_args[param.name] = position, Composite(star_args_value)
             elif param.kind is ParameterKind.VAR_KEYWORD:
                 star_kwargs_consumed = True
+                extra_keywords_accepted = True
                 items = {}
                 for key, (
                     definitely_provided,
@@ -1053,6 +1058,7 @@ class Signature:
                 # just take it all
                 star_args_consumed = True
                 star_kwargs_consumed = True
+                extra_keywords_accepted = True
                 param_spec_consumed = True
                 val = AnyValue(AnySource.ellipsis_callable)
                 bound_args[param.name] = UNKNOWN, Composite(val)
@@ -1072,6 +1078,7 @@ class Signature:
                 ):
                     star_kwargs_consumed = True
                     star_args_consumed = True
+                    extra_keywords_accepted = True
                     composite = Composite(
                         TypeVarValue(
                             actual_args.star_kwargs.param_spec, is_paramspec=True
@@ -1099,6 +1106,7 @@ class Signature:
                     )
                     star_args_consumed = True
                     star_kwargs_consumed = True
+                    extra_keywords_accepted = True
                     val = CallValue(new_actuals)
                     bound_args[param.name] = UNKNOWN, Composite(val)
             else:
@@ -1111,7 +1119,7 @@ class Signature:
                 ctx,
             )
             return None
-        if not star_kwargs_consumed:
+        if not extra_keywords_accepted:
             extra_kwargs = set(actual_args.keywords) - keywords_consumed
             if extra_kwargs:
                 extra_kwargs_str = ", ".join(map(repr, extra_kwargs))
